@@ -538,8 +538,6 @@ impl Vm {
     }
 
     fn run(&mut self) -> Result<Value, Error> {
-        debug_assert!(self.modules.len() == 1);
-
         loop {
             if cfg!(feature = "debug_trace") {
                 println!("          {}", self.active_fiber().stack);
